@@ -93,6 +93,14 @@ def main(tier: str) -> int:
             if abs(at_opt - opt) > max(tol, 1e-6):
                 chk.fail("the documented optimum is not attained at the optimal point the CEC2005 definition prescribes for this dimension",
                          {**d, "value_at_reference_optimum": at_opt, "optimum": opt}, {"problem": pid, "clause": "attained"})
+        for sb in fr.get("sub", []):
+            chk.count("batch_rows_%s" % ("D" if sb["n"] == D else "D+1" if sb["n"] == D + 1 else sb["n"]))
+            if sb["gap"] > 1e-9:
+                chk.fail("a row's value differs from the value obtained when that row is evaluated alone", {**d, "batch_rows": sb["n"], "relative_gap": sb["gap"], "first_row": sb["row0"]}, {"problem": pid, "clause": "rows"})
+        if fr.get("noisy_min") is not None:
+            chk.count("noisy_bulk")
+            if fr["noisy_min"] < opt - max(1e-6, 1e-9 * abs(opt)):
+                chk.fail("a noisy benchmark value is below the documented optimum", {**d, "min_over_1500_rows": fr["noisy_min"], "optimum": opt}, {"problem": pid, "clause": "lower_bound"})
         if fr["rows"] is not None:
             g = max(abs(a - b) / max(1.0, abs(a)) for a, b in zip(fr["y"], fr["rows"]))
             gap_rows = max(gap_rows, g)
